@@ -952,6 +952,8 @@ pub enum Associativity {
     /// `Both` means mathematically associative, like `+` or `*`
     Both,
     Right,
+    /// Operands of equal strength need parentheses on either side
+    Neither,
 }
 
 impl Associativity {
@@ -1023,6 +1025,10 @@ impl SQLExpression for BinaryOperator {
         use BinaryOperator::*;
         match self {
             Minus | Divide | Modulo => Associativity::Left,
+            // Comparisons do not chain in SQL (`a = b = c` is an error in Postgres and
+            // means `(a = b) = c` elsewhere; SQLite ranks `<` above `=`): always
+            // parenthesize a comparison nested in a comparison.
+            Gt | Lt | GtEq | LtEq | Eq | NotEq => Associativity::Neither,
             _ => Associativity::Both,
         }
     }
